@@ -12,6 +12,7 @@
 #include <functional>
 #include <cstdio>
 #include <cstring>
+#include <iostream>
 
 namespace iso {
 
@@ -58,11 +59,12 @@ inline void run_all(size_t n, const std::function<std::string(size_t)>& job,
     size_t next = 0;
     while (next < n) {
         int fd[2]; if (pipe(fd) != 0) { perror("pipe"); exit(2); }
-        fflush(stdout); fflush(stderr);
+        fflush(stdout); fflush(stderr); std::cout.flush();   // nothing buffered may be inherited by the child
         pid_t pid = fork();
         if (pid < 0) { perror("fork"); exit(2); }
         if (pid == 0) {
             close(fd[0]);
+            std::cerr.tie(nullptr);
             int ef = open(errfile.c_str(), O_WRONLY | O_CREAT | O_TRUNC, 0644);
             if (ef >= 0) { dup2(ef, 2); close(ef); }
             for (size_t i = next; i < n; ++i) {
